@@ -425,7 +425,7 @@ func runStaging(c *vlib.Ctx) error {
 	c.SetExtra("model_behaviours", len(behaviours))
 	depth, nrand := 4, 220
 	if c.Thorough() {
-		depth, nrand = 5, 4000
+		depth, nrand = 5, 3000
 	}
 	pc := protoCases(depth, c.Seed)
 	for _, cs := range pc {
